@@ -24,7 +24,7 @@ type NewStoreCase struct {
 	Names     []string       `json:"names"`      // declared, duplicates allowed
 	UseStruct bool           `json:"use_struct"` // additionally declare "s1","s2" through a tagged struct
 	TwoStructs bool          `json:"two_structs"` // ... and through a second struct whose tags repeat those names (and each other)
-	Fails     map[string]int `json:"fails"`      // per name: n>=0 transient failures before success; -1 hang until ctx; -2 permanent error
+	Fails     map[string]int `json:"fails"`      // per name: n>=0 transient failures before success; -1 hang until ctx; -2 permanent error; -3 one failure, then hang
 	FailKind  string         `json:"fail_kind"`  // what a transient/permanent failure looks like: err | denied | notfound
 	Cache     string         `json:"cache"`      // none | valid | invalid (syntax) | typeerr (well-formed JSON, wrong type somewhere) | readerr
 	Cached    []string       `json:"cached"`     // names present in the cache document
@@ -88,7 +88,7 @@ func genNewStoreCase(rt *rapid.T) NewStoreCase {
 	c.UseStruct = rapid.IntRange(0, 3).Draw(rt, "struct") == 0
 	c.TwoStructs = c.UseStruct && rapid.Bool().Draw(rt, "twostructs")
 	for _, n := range append(append([]string{}, c10Pool...), "s1", "s2", "b2", "0first") {
-		c.Fails[n] = rapid.SampledFrom([]int{0, 0, 0, 1, 2, 5, 13, 16, -1, -2}).Draw(rt, "fails-"+n)
+		c.Fails[n] = rapid.SampledFrom([]int{0, 0, 0, 1, 2, 5, 13, 16, -1, -2, -3}).Draw(rt, "fails-"+n)
 	}
 	c.Cache = rapid.SampledFrom([]string{"none", "valid", "valid", "valid", "invalid", "typeerr", "typeerr", "nullsib", "readerr"}).Draw(rt, "cache")
 	c.FailKind = rapid.SampledFrom([]string{"err", "err", "denied", "notfound", "reqtimeout", "nettimeout"}).Draw(rt, "failkind")
@@ -159,6 +159,10 @@ func runC10Bubble(dir string, c NewStoreCase, info *h.Info, again *func() *h.Vio
 			svc.SetDefault(n, fake.Beh{Kind: "hang"})
 		case f == -2:
 			svc.SetDefault(n, fake.Beh{Kind: fk})
+		case f == -3:
+			// one failure, and the attempt after it is never answered
+			svc.SetScript(n, []fake.Beh{{Kind: fk}})
+			svc.SetDefault(n, fake.Beh{Kind: "hang"})
 		case f > 0:
 			sc := make([]fake.Beh, f)
 			for i := range sc {
